@@ -334,24 +334,33 @@ def r_decoder(rule, root=None):
     facts = []
     # operand bytes and the immediate flag
     by_byte = {n: int(t[len(opv) + 1:-1]) for n, t in lets.items() if re.fullmatch(re.escape(opv) + r"\[\d\]", t)}
+
+    def nb(text):
+        """a name for one byte of the op word reads as that byte"""
+        for n_, b_ in by_byte.items():
+            text = re.sub(r"(?<![\w.])%s(?![\w(])" % re.escape(n_), "%s[%d]" % (opv, b_), text)
+        return text
+
     loads = {}
     for i in A.find(body, "If"):
-        c = A.unparse(i["cond"]).replace(" ", "").strip("()")
-        m = re.fullmatch(r"(\w+)==(255|0xFFu?|255u)", c)
-        if not m or i.get("else") is None or m.group(1) not in by_byte:
+        c = nb(A.unparse(i["cond"]).replace(" ", "").strip("()"))
+        m = re.fullmatch(re.escape(opv) + r"\[(\d)\](==|!=)(255|0xFFu?|255u)", c)
+        if not m or i.get("else") is None:
             continue
-        th = [A.unparse(s["e"]).replace(" ", "") for s in i["then"]["stmts"] if s.get("k") == "ExprStmt"]
-        el = [A.unparse(s["e"]).replace(" ", "") for s in i["else"]["stmts"] if s.get("k") == "ExprStmt"] if i["else"].get("k") == "Block" else []
+        th = [nb(A.unparse(s["e"]).replace(" ", "")) for s in i["then"]["stmts"] if s.get("k") == "ExprStmt"]
+        el = [nb(A.unparse(s["e"]).replace(" ", "")) for s in i["else"]["stmts"] if s.get("k") == "ExprStmt"] if i["else"].get("k") == "Block" else []
+        if m.group(2) == "!=":
+            th, el = el, th
         mt = re.fullmatch(r"(\w+)=(\w+)", th[0]) if len(th) == 1 else None
-        me = re.fullmatch(r"(\w+)=reg\[(\w+)\]", el[0]) if len(el) == 1 else None
+        me = re.fullmatch(r"(\w+)=reg\[%s\[(\d)\]\]" % re.escape(opv), el[0]) if len(el) == 1 else None
         if mt and me and mt.group(1) == me.group(1) and me.group(2) == m.group(1):
-            loads[mt.group(1)] = (by_byte[m.group(1)], mt.group(2))
+            loads[mt.group(1)] = (int(m.group(1)), mt.group(2))
     imm_ok = {v for v, t in lets.items() if re.fullmatch(r"build_imm\(bitcast<f32>\((%s\.imm|\w+)\)\)" % re.escape(wv), t) and (("%s.imm" % wv) in t or lets.get(re.fullmatch(r"build_imm\(bitcast<f32>\((.+)\)\)", t).group(1)) == "%s.imm" % wv)}
     facts.append(("the first operand is byte 2 and the second byte 3, each replaced by the immediate word when the byte is 255",
                   loads.get("lhs", (None,))[0] == 2 and loads.get("rhs", (None,))[0] == 3 and loads["lhs"][1] in imm_ok and loads["rhs"][1] in imm_ok))
     sw = [s for s in A.find(body, "Switch")]
     facts.append(("the opcode is byte 0", len(sw) == 1 and A.unparse(sw[0]["e"]).replace(" ", "") == "%s[0]" % opv))
-    writes = [A.unparse(a["left"]).replace(" ", "") for a in A.find(body, "Assign") if A.unparse(a["left"]).replace(" ", "").startswith("reg[")]
+    writes = [nb(A.unparse(a["left"]).replace(" ", "")) for a in A.find(body, "Assign") if A.unparse(a["left"]).replace(" ", "").startswith("reg[")]
     facts.append(("the result is written to the register in byte 1", writes == ["reg[%s[1]]" % opv]))
     for what, ok in facts:
         if ok:
@@ -413,7 +422,7 @@ def r_decoder(rule, root=None):
     else:
         rule.bad("decoder|jump-op", "OP_JUMP must be 0xFF (the marker words are u32::MAX, whose low byte is the opcode)", where)
     o = cases.get("OP_OUTPUT")
-    ot = A.unparse(o["body"]).replace(" ", "") if o else ""
+    ot = nb(A.unparse(o["body"]).replace(" ", "")) if o else ""
     if "out.value=reg[%s[1]]" % opv in ot:
         rule.ok("decoder: Output reads the register in byte 1", file=TAPE, line=o["ln"])
     else:
